@@ -1,6 +1,7 @@
 package main
 
 import (
+	"context"
 	"encoding/json"
 	"fmt"
 	"os"
@@ -167,6 +168,7 @@ func cmdCheck(argv []string) int {
 	opt := solveOpts{dir: qdir, order: order, timeoutS: timeout, seed: seed, jobs: 6}
 
 	var all []EvObl
+	cexBudget := 4
 	var results []*HarnessResult
 	assume := map[string]bool{}
 	funcs := map[string]bool{}
@@ -206,11 +208,16 @@ func cmdCheck(argv []string) int {
 				retry = append(retry, o)
 			}
 		}
+		if len(retry) > 6 {
+			// many obligations undecided at once (typically one broken function): retrying all of them at
+			// large limits would take very long; the first few decide the verdict
+			retry = retry[:6]
+		}
 		if len(retry) > 0 {
 			// re-run the harness's engine for these queries at thorough limits: rebuild through runHarness is
 			// avoided; queries are still on disk
 			ropt := opt
-			ropt.timeoutS = timeout * 3
+			ropt.timeoutS = timeout * 2
 			ropt.order = []string{"z3-new", "z3", "cvc5"}
 			resolveFromFiles(retry, ropt)
 		}
@@ -261,6 +268,23 @@ func cmdCheck(argv []string) int {
 					}
 				} else {
 					payload["solver_output"] = o.Note
+					// counterexample search: the obligation without its quantified facts often has a model; it
+					// is only a candidate input, the replay on the real code decides
+					if cexBudget > 0 && r.E != nil && (o.Kind == "safe" || o.Kind == "post" || o.Kind == "assert") {
+						cexBudget--
+						qf := filepath.Join(qdir, "cex_"+sanitizeFile(o.Name)+".smt2")
+						if err := os.WriteFile(qf, []byte(r.E.buildQueryLevel(o, 4)), 0o644); err == nil {
+							if sr := runSolverCtx(context.Background(), "z3-new", qf, 15, seed); sr.status == "sat" {
+								saved := o.Query
+								o.Query = qf
+								if tryReplay(P, r, o, vd, id, payload) {
+									found = true
+									payload["note"] = "input found by searching the obligation without its quantified facts and confirmed by the replay"
+								}
+								o.Query = saved
+							}
+						}
+					}
 				}
 				if o.Query != "" {
 					if q, err := os.ReadFile(o.Query); err == nil && len(q) < 400000 {
